@@ -579,7 +579,8 @@ class GraphTap:
     """In-process wrapper on the two science.py functions as imported by game.py: records the graph they are given."""
 
     def __init__(self):
-        self.graphs: List[dict] = []
+        self.graphs: List[dict] = []          # given to graph_has_cycle
+        self.sorted_graphs: List[dict] = []   # given to topological_sort
 
     def __enter__(self):
         import primaite.game.game as G
@@ -590,11 +591,17 @@ class GraphTap:
         def ghc(graph):
             tap.graphs.append(graph)
             return tap.orig[0](graph)
+
+        def ts(graph):
+            tap.sorted_graphs.append(graph)
+            return tap.orig[1](graph)
         G.graph_has_cycle = ghc
+        G.topological_sort = ts
         return self
 
     def __exit__(self, *a):
         self.G.graph_has_cycle = self.orig[0]
+        self.G.topological_sort = self.orig[1]
 
 
 # what each component class is proved to read of the agent's own history item (Props/C10Calc.lean `Comp.reads`; the driver's
@@ -882,8 +889,9 @@ def run_impl(case: dict) -> Tuple[List[str], dict]:
         if game is not None:
             check.after_load(game)
         if tap.graphs:
-            graph = tap.graphs[0]
-            capture["graph"] = {k: list(v) for k, v in graph.items()}
+            capture["graph"] = {k: list(v) for k, v in tap.graphs[0].items()}
+        if tap.graphs or tap.sorted_graphs:  # (the set orders are read off the graph given to either function)
+            graph = (tap.graphs or tap.sorted_graphs)[0]
             # insertion sequence per surviving agent object = its shared-reward components in component order
             for ref, ins in declared_graph(case["agents"]).items():
                 if ref in graph:
@@ -1517,7 +1525,11 @@ def run_env(case: dict) -> Tuple[List[str], dict]:
                 capture["step_problems"] = [f"scenario does not load: {case.get('source')}: {type(e).__name__}: {e} | "
                                             + traceback.format_exc()[-600:].replace("\n", " | ")]
                 return [f"raised other:{type(e).__name__}", "no-game"], capture
-            graph = tap.graphs[0]
+            if not tap.graphs:
+                # the scenario loaded without `graph_has_cycle` ever being asked: a failing input (an unchecked sharing graph), not a
+                # crash of the check; the graph is taken from the `topological_sort` call if there was one
+                check._bad(f"sharing graph: setup_reward_sharing never called graph_has_cycle while loading {case.get('source')}")
+            graph = tap.graphs[0] if tap.graphs else (tap.sorted_graphs[0] if tap.sorted_graphs else {})
             capture["graph"] = {k: list(v) for k, v in graph.items()}
             for ref, ins in declared_graph(agents).items():
                 if ref in graph:
@@ -1615,7 +1627,7 @@ def run_env(case: dict) -> Tuple[List[str], dict]:
                     if scheduled:  # the next episode has its own configuration: agents, components, sharing graph
                         agents = agents_desc(env.episode_scheduler(env.episode_counter))
                         stp["new_agents"] = agents
-                        g2 = tap.graphs[-1]
+                        g2 = (tap.graphs or tap.sorted_graphs or [{}])[-1]
                         stp["new_setorders"] = [(ins, list(g2[ref])) for ref, ins in declared_graph(agents).items() if ref in g2]
                         check.reconfigure(agents)
                         hostnames = {c["node"] for a in agents for c in a["comps"] if "node" in c}
